@@ -3,7 +3,7 @@
 From AQ Require Import lib.Base model.RangeSet model.StreamRecv model.ConnLimits model.ConnLimitsSpec
   gen.C07Consts proofs.RangeSetP proofs.ConnLimitsP proofs.ConnLimitsAdv proofs.ConnLimitsUsed proofs.ConnLimitsSim
   proofs.ConnLimitsDeliv proofs.ConnLimitsMsd model.ConnLimitsCut proofs.ConnLimitsCutP proofs.ConnLimitsCutInv
-  proofs.ConnLimitsCutEq.
+  proofs.ConnLimitsCutEq proofs.ConnLimitsCutOver.
 
 (* over_limit_closes, part 1: in EVERY state, a STREAM / RESET_STREAM / MAX_STREAM_DATA / STREAM_DATA_BLOCKED
    frame that would create a peer-initiated stream beyond the current MAX_STREAMS value is answered with
@@ -310,3 +310,39 @@ Theorem buffer_bounded_cut : RAISE_BEFORE_START_FRAME = false -> forall cl msd m
   0 <= l_used (c_bidi c) <= p_adv_bidi p /\ 0 <= l_used (c_uni c) <= p_adv_uni p.
 Proof. exact buffer_bounded_advertised. Qed.
 Print Assumptions buffer_bounded_cut.
+
+(* over_advertised_limit_closes_cut -- the direction F-C07-4 broke, now for EVERY history with cut passes, on a tree that assigns a
+   raised limit only next to the written frame: after a prefix in which every STREAM / RESET_STREAM frame was within every limit
+   written on the wire so far and final-size consistent, the first frame BEYOND a limit written on the wire (stream count, that
+   stream's data limit, or the connection data limit charged with the bytes the peer has committed) is answered with
+   FLOW_CONTROL_ERROR or STREAM_LIMIT_ERROR whenever the endpoint gets as far as the limit checks (judged: well-formed, a stream
+   the peer may send on, state not discarded, stream exists or is the peer's to open); a frame that is not judged is ignored or
+   refused with FRAME_ENCODING_ERROR / STREAM_STATE_ERROR, never accepted (model/ConnLimitsCut.v: over_ok, xunanswered).
+   Proof: AdvEq (enforced = advertised) + XInv (max_data.used = the bytes the peer committed; every live peer-initiated stream is
+   below the advertised count).  over_advertised_limit_closes_refuted above keeps describing a tree that raises before
+   start_frame(); cut_pass_unanswered_witnesses: there the same three witnesses make xunanswered true. *)
+Theorem over_advertised_limit_closes_cut : RAISE_BEFORE_START_FRAME = false -> RESET_ADVANCES_HIGHEST = true ->
+  forall cl msd md cb ops, 0 <= msd -> 0 <= md -> 0 <= cb ->
+  xunanswered (conn_init cl msd md cb) (peer_init msd md) ops = false.
+Proof. exact xunanswered_init. Qed.
+Print Assumptions over_advertised_limit_closes_cut.
+
+Theorem cut_pass_unanswered_witnesses : RAISE_BEFORE_START_FRAME = true ->
+  xunanswered (conn_init false 3000 2000 0) (peer_init 3000 2000) w_cut_data = true /\
+  xunanswered (conn_init false 1000 4000 0) (peer_init 1000 4000) w_cut_stream = true /\
+  xunanswered (conn_init false 1000 4000 0) (peer_init 1000 4000) w_cut_count = true.
+Proof. exact cut_witnesses_unanswered. Qed.
+Print Assumptions cut_pass_unanswered_witnesses.
+
+(* in every state satisfying the invariants, frame by frame: what "beyond a limit written on the wire" forces *)
+Theorem over_advertised_stream_frame : forall c p ft sid off data r c', Sim c p -> AdvEq c p -> XInv c p ->
+  handle_stream c ft sid off data = (r, c') -> within_wire_limits (c_client c) p sid (off + Zlen data) = false ->
+  over_ok c sid (off + Zlen data) r = true.
+Proof. exact over_stream. Qed.
+Print Assumptions over_advertised_stream_frame.
+
+Theorem over_advertised_reset_frame : forall c p sid fs r c', Sim c p -> AdvEq c p -> XInv c p ->
+  handle_reset_stream c sid fs = (r, c') -> within_wire_limits (c_client c) p sid fs = false ->
+  over_ok c sid fs r = true.
+Proof. exact over_reset. Qed.
+Print Assumptions over_advertised_reset_frame.
